@@ -93,7 +93,7 @@ def _run(name, cfgtext, out, workers, sem, quota, seed):
         if name == "rec":
             seen = set()
             for tag, c in res.prints:
-                key = (tuple(c["kinds"]), c["edit"]) if tag == "LAYOUT" else None
+                key = (tuple(c["kinds"]), c["edit"], tuple(sorted(c.get("decor") or []))) if tag == "LAYOUT" else None
                 if key and key not in seen:
                     seen.add(key)
                     cases.append(c)
@@ -154,7 +154,7 @@ def _tlc_all(tier, seed, v):
 
 def _n_text(tier):
     scale = float(os.environ.get("VERIF_BUDGET_SCALE", "1"))  # < 1 only for fast mutant screening
-    return int({"quick": 60000, "thorough": 400000}[tier] * scale)
+    return int({"quick": 40000, "thorough": 400000}[tier] * scale)
 
 
 # ----------------------------------------------------------------------------- (a) text level
@@ -242,7 +242,7 @@ MULTI = {
     "THETA": ("$THETA (0,0.005) (0,1.5)\n", ["$THETA (0,0.005) ; TVCL\n", "$THETA (0,1.5)\n"]),
     "THETA_INF": ("$THETA (0,0.005) (-INF,1.5,INF)\n", None),
     # a (v)xn repeat followed by another theta in the same record (three thetas: the code records get TV3=THETA(3))
-    "THETA_REP": ("$THETA (0,0.5,10)x2 ; CL and V start from the same value\n       (-.99,.1)    ; third\n", None),
+    "THETA_REP": ("$THETA (0,0.5,10)x2\n       (-.99,.1)    ; third\n", None),
     "OMEGA": ("$OMEGA 0.03 0.04\n", ["$OMEGA 0.03\n", "$OMEGA 0.04 ; IVV\n"]),
     "SIGMA": ("$SIGMA 0.01\n", ["$SIGMA 0.01\n", "$SIGMA 0.02\n"]),
     "ESTIMATION": ("$ESTIMATION METHOD=1 INTERACTION MAXEVAL=99\n", ["$ESTIMATION METHOD=1 INTERACTION MAXEVAL=99\n", "$ESTIMATION METHOD=IMP NITER=5\n"]),
@@ -255,26 +255,26 @@ MULTI4 = {
 ABBREV = {"$THETA": "$THE", "$OMEGA": "$OME", "$ESTIMATION": "$EST", "$PROBLEM": "$PROB", "$SUBROUTINE": "$SUB", "$COVARIANCE": "$COV"}
 
 
-def render_layout(kinds, rng):
+def render_layout(kinds, rng, decor=()):
     """kinds (from TLC) -> list of record texts; comments / blank lines between records, abbreviations and leading
     blanks are decoration chosen by the seed (they are part of the record's text and must survive)."""
     count = {k: kinds.count(k) for k in set(kinds)}
     seen: dict = {}
     out = []
-    four = {k: count.get(k, 0) > 1 and rng.random() < 0.5 for k in ("OMEGA", "SIGMA")}
+    four = {"OMEGA": "omega4" in decor and count.get("OMEGA", 0) == 2, "SIGMA": "sigma4" in decor and count.get("SIGMA", 0) == 2}
     eps2 = "+EPS(2)" if count.get("SIGMA", 0) > 1 else ""
     if four["SIGMA"]:
         eps2 += "+EPS(3)+EPS(4)"
     etas = "E3=ETA(3)\nE4=ETA(4)\n" if four["OMEGA"] else ""
-    theta_variant = rng.random() if count.get("THETA", 0) == 1 else 1.0
-    th3 = "TV3=THETA(3)\n" if 0.12 <= theta_variant < 0.3 else ""
-    table_ml = rng.random() < 0.5
+    one_theta = count.get("THETA", 0) == 1
+    th3 = "TV3=THETA(3)\n" if one_theta and "thetaRep" in decor else ""
+    table_ml = "tableML" in decor
     for k in kinds:
         if k in MULTI:
             i = seen.get(k, 0)
             seen[k] = i + 1
             t = MULTI[k][0] if count[k] == 1 else (MULTI4[k][i] if four.get(k) else MULTI[k][1][i])
-            if k == "THETA" and theta_variant < 0.12:
+            if k == "THETA" and one_theta and "thetaInf" in decor:
                 t = MULTI["THETA_INF"][0]
             elif k == "THETA" and th3:
                 t = MULTI["THETA_REP"][0]
@@ -431,10 +431,10 @@ def run_model_case(arg):
 
     out = []
     if arg[0] == "layout":
-        _, kinds, edit, seed = arg
-        texts = render_layout(kinds, random.Random(seed))
+        _, kinds, edit, seed, decor = arg
+        texts = render_layout(kinds, random.Random(seed), decor)
         code = "".join(texts)
-        base = {"part": "layout", "kinds": kinds, "layout_seed": seed, "text": code}
+        base = {"part": "layout", "kinds": kinds, "decor": sorted(decor), "layout_seed": seed, "text": code}
         edits = [edit]
         try:
             m = read_model_from_string(code)
@@ -475,18 +475,15 @@ def run_model_case(arg):
             out.append(("violation", dict(rec, outcome="empty_edit_changed_code"),
                         f"update_source of the unmodified model changed the code: {diff}", None))
             continue
-        glued = _comment_changed(code, new_code)
-        if glued:
-            out.append(("violation", dict(rec, outcome="comment_changed"),
-                        f"{edit}: the comment {glued[0]!r} is not preserved exactly, the new code has {glued[1]!r}", None))
-            continue
         new = _records_of(m2)
         ids: dict = {}
 
         def uid(kt):
             return ids.setdefault(kt, len(ids) + 1)
 
-        trace = {"edit": edit, "old": [[k, uid((k, t))] for k, t in old], "new": [[k, uid((k, t))] for k, t in new]}
+        oldc, newc = _comment_lists(old, new)
+        trace = {"edit": edit, "old": [[k, uid((k, t))] for k, t in old], "new": [[k, uid((k, t))] for k, t in new],
+                 "oldc": oldc, "newc": newc}
         changed = sorted({k for k, t in set(old) ^ set(new)})
         out.append(("trace", dict(rec, changed_kinds=changed), None, trace))
     return out
@@ -495,19 +492,31 @@ def run_model_case(arg):
 _COMMENT = re.compile(r";[^\r\n]*")
 
 
-def _comment_changed(old_code, new_code):
-    """A comment of the old text that survives only as a proper prefix of a longer comment (something was glued onto
-    its line) or was cut short.  Comments that vanish together with a rewritten record are not judged here."""
-    oldc = [c.rstrip() for c in _COMMENT.findall(old_code)]
-    newc = [c.rstrip() for c in _COMMENT.findall(new_code)]
-    olds, news = set(oldc), set(newc)
-    for c in oldc:
-        if c in news or len(c) < 3:
-            continue
-        for n in newc:
-            if n not in olds and n != c and (n.startswith(c) or c.startswith(n)) and len(n) >= 3:
-                return (c, n)
-    return None
+def _comment_lists(old, new):
+    """comments of the old / new records in order as [kind, cid, ext] (StreamOps.CommentsHold): cid = identity of the
+    exact text, ext = cid of an old comment of which the text is a proper extension or truncation (0: none)"""
+    ids: dict = {}
+
+    def cid(c):
+        return ids.setdefault(c, len(ids) + 1)
+
+    def lst(recs):
+        return [(k, c.rstrip()) for k, t in recs for c in _COMMENT.findall(t)]
+
+    oc, nc = lst(old), lst(new)
+    oldtexts = [c for _, c in oc]
+    for c in oldtexts:
+        cid(c)
+
+    def ext(c):
+        if c in ids and c in oldtexts:
+            return 0
+        for o in oldtexts:
+            if len(o) >= 3 and len(c) >= 3 and o != c and (c.startswith(o) or o.startswith(c)):
+                return ids[o]
+        return 0
+
+    return [[k, cid(c), 0] for k, c in oc], [[k, cid(c), ext(c)] for k, c in nc]
 
 
 def _multi_theta(m):
@@ -549,7 +558,8 @@ def validate_traces(items, v):
     for tid, why in sorted(rej.items()):
         rec, trace = items[tid - 1]
         rec = dict(rec, trace=trace)
-        rec["outcome"] = "unknown_edit" if not why["known"] else "frame" if not why["frame"] else "placement"
+        rec["outcome"] = ("unknown_edit" if not why["known"] else "frame" if not why["frame"] else
+                          "placement" if not why["placement"] else "comments")
         if rec["outcome"] == "unknown_edit":
             raise core.MachineryError(f"edit {trace['edit']} is not an edit of StreamOps.tla")
         oldk = {tuple(x) for x in trace["old"]}
@@ -652,14 +662,23 @@ def main(tier: str, seed: int) -> int:
     if len(texts) > n_text:
         texts = rng.sample(texts, n_text)
     rtexts = _c04_record_texts(tier, seed)
-    n_lay = int({"quick": 1500, "thorough": 30000}[tier] * scale)
-    lay_work = [("layout", c["kinds"], c["edit"], rng.randrange(1 << 30)) for c in layouts]
-    # the empty edit on every layout, the other edits sampled
-    empties = [w for w in lay_work if w[2] == "Empty"]
-    others = [w for w in lay_work if w[2] != "Empty"]
-    rng.shuffle(others)
-    rng.shuffle(empties)
-    lay_sel = empties[: n_lay // 3] + others[: n_lay - min(len(empties), n_lay // 3)]
+    n_lay = int({"quick": 1200, "thorough": 30000}[tier] * scale)
+    lay_work = [("layout", c["kinds"], c["edit"], rng.randrange(1 << 30), sorted(c.get("decor") or [])) for c in layouts]
+    # classes = (record shape classes, edit): round-robin so that every class is replayed before any is repeated;
+    # the empty edit is served first
+    strata: dict = {}
+    for w in lay_work:
+        strata.setdefault((w[2] != "Empty", tuple(w[4]), w[2]), []).append(w)
+    for k in strata:
+        rng.shuffle(strata[k])
+    lay_sel, i = [], 0
+    keys = sorted(strata)
+    while len(lay_sel) < n_lay and keys:
+        keys = [k for k in keys if i < len(strata[k])]
+        for k in keys:
+            if len(lay_sel) < n_lay:
+                lay_sel.append(strata[k][i])
+        i += 1
     work = [("text", c) for c in texts] + [("rtext", t) for t in rtexts] + [("model", w) for w in lay_sel]
     work += [("model", ("corpus", p, CORPUS_EDITS)) for p in corpus_files()]
     rng.shuffle(work)
@@ -711,7 +730,7 @@ def replay(path: str) -> int:
         print(st, what)
         return 1 if st == "violation" else 0
     if c.get("part") == "layout":
-        res = run_model_case(("layout", c["kinds"], c["edit"], c["layout_seed"]))
+        res = run_model_case(("layout", c["kinds"], c["edit"], c["layout_seed"], c.get("decor", [])))
     else:
         res = run_model_case(("corpus", str(core.REPO / "tests" / "testdata" / c["model"]), [c["edit"]]))
     bad = 0
